@@ -98,7 +98,8 @@ def gen_one(rng):
     g = G(rng)
     ag = g.agent(1)
     en = g.env(1)
-    return {"agent": ag, "env": en, "action": action_for(en, g), "meta": {"depth": g.depth, "dict": g.has_dict, "wrap": g.has_wrap, "n": g.n}}
+    return {"agent": ag, "env": en, "action": action_for(en, g), "fixed_root": rng.random() < 0.4,
+            "meta": {"depth": g.depth, "dict": g.has_dict, "wrap": g.has_wrap, "n": g.n}}
 
 
 def gen(rng, tier):
